@@ -27,6 +27,7 @@ for c in $CHECKS; do
   res="$res{\"check\":\"$c\",\"exit\":$rc,\"wall_s\":$e,\"violations\":$(grep -c '^VIOLATION' /verif/scratch/seeded-$ID-$M-$c.log),\"signatures\":\"$sigs\"},"
 done
 res="${res%,}]"
+[ -f $D/result.json ] && [ ! -f $D/result_first.json ] && cp $D/result.json $D/result_first.json
 echo "{\"seed\":${VERIF_SEED:-7},\"repo_head\":\"$(git -C /repo rev-parse --short HEAD)\",\"results\":$res}" > $D/result.json
 git -C /repo checkout -- .
 # the evidence files were rewritten by runs against the modified tree: put the committed ones back
